@@ -106,8 +106,38 @@ def check_keys(case, acc):
         acc.viol('c14.%s.kcv' % kind, case, got_kcv, want_kcv, 'check value of the combined key')
 
 
+def check_pvv_reuse(case, acc):
+    """ONE pin block object asked for several PVVs in a row (other card number for the format-4 block, which carries
+    none; other key / key index for both): every answer is the Visa PVV of the inputs of THAT call"""
+    from cardutil import pinblock
+    pin = case['pin']
+    acc.case(('pvv_reuse', pin, repr(case['calls']), case['via']), nontrivial=True, outcome='same object reused')
+    try:
+        if case['via'] == 'iso0':
+            pb = pinblock.Iso0TDESPinBlockWithVisaPVV(pin=pin, card_number=case['calls'][0][0])
+        else:
+            pb = pinblock.Iso4AESPinBlockWithVisaPVV(pin=pin, random_value=7)
+        for i, (pan, idx, key) in enumerate(case['calls']):
+            own = case['calls'][0][0] if case['via'] == 'iso0' else pan
+            want, ct = pin_ref.visa_pvv(pin, own, idx, bytes.fromhex(key))
+            if case['via'] == 'iso0':
+                got = pb.to_pvv(pvv_key=key, key_index=idx)
+            elif i % 2:
+                got = pb.to_pvv(key, idx, pan)
+            else:
+                got = pb.to_pvv(pvv_key=key, key_index=idx, card_number=pan)
+            if got != want:
+                acc.viol('c14.pvv.same_object', case, 'call %d gave %s' % (i + 1, got), want,
+                         'call %d of %d on one object: card number %s, index %d' % (i + 1, len(case['calls']), own, idx))
+                return
+    except Exception as ex:
+        acc.viol('c14.pvv.same_object.exception', case, repr(ex), 'four decimal digits per call')
+
+
 def replay_into(case, acc):
-    if case['kind'] == 'pvv':
+    if case['kind'] == 'pvv_reuse':
+        check_pvv_reuse(case, acc)
+    elif case['kind'] == 'pvv':
         check_pvv(case, acc)
     else:
         check_keys(case, acc)
@@ -170,6 +200,15 @@ def tasks(tier, seed):
     for key in COMPONENTS + MASTER_KEYS:
         for ln in (6, 4, 16, 6):
             seq.append({'kind': 'kcv', 'key': key, 'len': ln, 'explicit': True})
+    # one object, several questions
+    pans = [digits(16, seed, 6), '9' + digits(15, seed, 2), digits(13, seed, 8), digits(19, seed, 1)]
+    for pl in (4, 6, 12):
+        pin = digits(pl, seed, 4)
+        for a, b in itertools.permutations(range(len(pans)), 2):
+            for via in ('iso4', 'iso0'):
+                seq.append({'kind': 'pvv_reuse', 'via': via, 'pin': pin, 'calls': [
+                    [pans[a], 1, PVV_KEYS[1]], [pans[b], 1, PVV_KEYS[1]], [pans[a], 2, PVV_KEYS[1]],
+                    [pans[b], 2, PVV_KEYS[0]], [pans[a], 1, PVV_KEYS[1]]]})
     ts = [{'cases': ch} for ch in core.chunks(pvv_cases, 60)]
     ts.append({'cases': cases})          # all key-management cases in one task, in enumeration order
     ts.append({'cases': seq})
